@@ -136,7 +136,11 @@ class InitialOrbitDetermination(ABC):
         Returns:
             ``bool``: whether or not obs are from the same pass
         """
-        sma = getSemiMajorAxis(norm(ob1_eci[:3]), norm(ob1_eci[3:]))
+        if (speed := norm(ob1_eci[3:])) > 0.0:
+            sma = getSemiMajorAxis(norm(ob1_eci[:3]), speed)
+        else:
+            # position-only vector (radar IOD): circular orbit assumed as first approximation
+            sma = norm(ob1_eci[:3])
         period = getPeriod(sma)
         transit_time = (ob2_jdate - ob1_jdate) * DAYS2SEC
         if transit_time >= period:
